@@ -174,7 +174,7 @@ class Prop:
             return "transport-does-not-open-or-foreign-packet"
         sub, sent, allowed, nxt, role = set(), set(), True, None, {}
         for e, o in zip(evs, obs):
-            if e["k"] in ("tun", "tunerr", "tunierr"):
+            if e["k"] in ("tun", "tungso", "tunerr", "tunierr"):
                 sub |= set(range(o.get("first", 0), o.get("first", 0) + e.get("n", 0))) - set(o.get("lost") or [])
             sent |= {t["p"] for t in (o.get("tx") or []) if t["p"] != 0}
             fresh = o.get("idx") if e["k"] == "ans" else (nxt if e["k"] == "refdata" else None)
@@ -186,10 +186,10 @@ class Prop:
                 return "held-packets-not-delivered-by-new-session"
             passed = [t for t in (o.get("tx") or []) if t["c"] > REKEY] if e["k"] != "tunerr" else []
             due = bool(passed) or bool(sub - sent)
-            flush = e["k"] in ("tun", "tunerr", "ans", "uapi") or (e["k"] == "refdata" and nxt is not None)
+            flush = e["k"] in ("tun", "tungso", "tunerr", "ans", "uapi") or (e["k"] == "refdata" and nxt is not None)
             if e["k"] == "retransmit" and (sub - sent) and o.get("init", 0) == 0:
                 return "no-retransmission-of-refused-or-unanswered-initiation-packets-stuck"
-            if e["k"] == "tunierr" and due and allowed:
+            if e["k"] == "tunierr" and allowed and (due or any(t["c"] >= REKEY for t in (o.get("tx") or []))):
                 allowed = False
             if allowed and flush and due and o.get("init", 0) == 0:
                 return "no-initiation-when-due" + ("-device-was-%s" % role.get(passed[0]["i"], "unknown") if passed else "")
@@ -210,12 +210,12 @@ class Prop:
             return c["info"]["keys"] > 1 and c["info"]["transports"] >= 1000
         if c.get("stuck"):
             return True
-        sub = sum(e.get("n", 0) for e in c["evs"] if e["k"] in ("tun", "tunerr", "tunierr"))
+        sub = sum(e.get("n", 0) for e in c["evs"] if e["k"] in ("tun", "tungso", "tunerr", "tunierr"))
         held = False
         sent = 0
         for e, o in list(zip(c["evs"], c["obs"]))[1:]:       # the first batch only starts the first handshake
             data = sum(1 for t in (o.get("tx") or []) if t["p"] != 0)
-            if e["k"] in ("tun", "tunerr", "tunierr") and data < e.get("n", 0):
+            if e["k"] in ("tun", "tungso", "tunerr", "tunierr") and data < e.get("n", 0):
                 held = True
         passed = any(t["c"] >= REKEY for o in c["obs"] for t in (o.get("tx") or []))
         return sub > 1 and (held or passed)
